@@ -7,7 +7,7 @@ from .terms import RF, lift, Unsupported
 import itertools
 from .guards import Ctx, A, Not, And, Or, atoms_of, ev, facts_from, show_f, literals, consistent
 from .summ import (Summarizer, State, Sym, ListV, DictV, BoolV, WILD, DONTCARE, vkey, show_value, to_num, Leaf)
-from .guards import show_f
+from .guards import show_f, Not
 from .laws import all_atoms, assignments, select, subst_value, values_equal, show_alpha
 
 OPAQUE_TAGS = {"comp", "lambda", "fstr", "star"}
@@ -351,6 +351,7 @@ def dispatch_of(leaf, method, what):
 def c01_wiring(model, rep):
     r = roles(model)
     rep.extra["roles"] = r
+    rep.attempt(relation_table_rule, model, rep, "R4")
     rep.attempt(child_current_rule, model, rep, r, "R5")
     rep.attempt(pass_wiring, model, rep, r, "R4")
     rep.attempt(row_assembly, model, rep, r, "R6", ["Vin (V)", "Vout (V)", "Iin (A)", "Iout (A)", "Parent", "Component", "Type"])
@@ -980,6 +981,32 @@ def simple_provenance(fn, name):
     return out
 
 
+def relation_table_rule(model, rep, rule):
+    """_get_parents / _get_childs: an entry per node - the predecessor (successor) list when the node has any, -1 otherwise"""
+    rel = model.rel("system")
+    for mname, deg, idxs in (("_get_parents", "in_degree", "predecessor_indices"), ("_get_childs", "out_degree", "successor_indices")):
+        fn = model.own_method("System", mname)
+        ok = False
+        loops = [x for x in ast.walk(fn) if isinstance(x, ast.For) and isinstance(x.target, ast.Name)]
+        for lp in loops:
+            n = lp.target.id
+            srcs = {ast.unparse(lp.iter)}
+            if isinstance(lp.iter, ast.Name):
+                srcs |= {ast.unparse(a.value) for a in ast.walk(fn) if isinstance(a, ast.Assign) and is_name(a.targets[0], lp.iter.id)}
+            if "self._get_nodes()" not in srcs:
+                continue
+            for iff in lp.body:
+                if isinstance(iff, ast.If) and ast.unparse(iff.test).replace(" ", "") in ("self._g.%s(%s)>0" % (deg, n), "self._g.%s(%s)!=0" % (deg, n), "self._g.%s(%s)>=1" % (deg, n)) and not iff.orelse:
+                    st = [a for a in iff.body if isinstance(a, ast.Assign) and isinstance(a.targets[0], ast.Subscript) and is_name(a.targets[0].slice, n) and isinstance(a.value, ast.Name)]
+                    src = [a for a in iff.body if isinstance(a, ast.Assign) and st and is_name(a.targets[0], st[-1].value.id) and ("self._g.%s(%s)" % (idxs, n)) in ast.unparse(a.value)]
+                    if st and src and iff.body[-1] is st[-1]:
+                        ok = True
+        init = any(isinstance(a, ast.Assign) and "-np.ones(" in ast.unparse(a.value).replace(" ", "") for a in ast.walk(fn))
+        if not (ok and init):
+            rep.violation(rule, "system.System.%s" % mname, "%s:%d" % (rel, fn.lineno), "the relation table does not hold, for every live node, its %s list when it has any and -1 otherwise" % ("parent" if deg == "in_degree" else "child"), "relation table " + mname)
+        rep.instance(rule, "system.System.%s relation table" % mname, "%s:%d" % (rel, fn.lineno), ok and init)
+
+
 def parents_reader_rule(model, rep, gp, reg, rule):
     rel = model.rel("system")
     ok = False
@@ -1033,14 +1060,24 @@ def find_domain_rule(model, rep, r, rule):
     if not top or not isinstance(top[0], ast.If):
         raise AnalysisError("_find_domain does not start with a type dispatch")
     cur = top[0]
+    from .effects import EditHooks, GuardedSummarizer
+    tsm = GuardedSummarizer(EditHooks(model, r, ()), Ctx())
+    tenv = {"self": Sym(("name", "self")), N: Sym(("name", "n")), DOM: Sym(("name", "dom")), VV: Sym(("name", "v"))}
+    node_n = Sym(("sub", Sym(("attr", Sym(("name", "self")), "_g")), Sym(("name", "n"))))
     while True:
         t = ast.unparse(cur.test)
         typ = None
+        f = tsm.cond(cur.test, State(tenv))
         for name in ("SOURCE", "PMUX"):
-            if ("'%s'" % name in t or "_ComponentTypes.%s" % name in t) and "self._g[%s]" % N in t:
+            if f == A(("TYPE", node_n, name)):
                 typ = name
         if typ is None:
-            raise AnalysisError("_find_domain: unrecognised branch test %s" % t)
+            neg = [name for name in ("SOURCE", "PMUX") if f == Not(A(("TYPE", node_n, name)))]
+            if neg:
+                rep.violation(rule, "system.System._find_domain", where, "the %s branch is taken for every component that is NOT a %s" % (neg[0], neg[0]), "domain branch inverted " + neg[0])
+                typ = neg[0]
+            else:
+                raise AnalysisError("_find_domain: unrecognised branch test %s" % t)
         branches[typ] = cur.body
         if len(cur.orelse) == 1 and isinstance(cur.orelse[0], ast.If):
             cur = cur.orelse[0]
